@@ -337,8 +337,9 @@ Fixpoint o_frames (fuel : nat) (d : list N) (cap : N) : option (ostate * list ms
 (* OPCServer::SocketReady: Receive(data + offset, buffer_size - offset) then the frame loop *)
 Definition o_recv (s : ostate) (av : list N) : ores :=
   let room := usub32 (o_cap s) (len (o_data s)) in
-  let got := take room av in
-  let r := drop room av in
+  let k := N.min room (len av) in           (* Receive returns min(room, available) bytes *)
+  let got := take k av in
+  let r := drop k av in
   if o_cap s <? len (o_data s) + len got then None
   else
     let d := o_data s ++ got in
@@ -517,12 +518,13 @@ Definition a_read (s : astate) (av : list N) : option (astate * list N) :=
     let cap1 := if free <? a_out s
                 then (if want <=? a_cap s then a_cap s else N.max want ACN_INITIAL_SIZE)
                 else a_cap s in
-    let got := take (a_out s) av in
+    let k := N.min (a_out s) (len av) in    (* Receive returns min(outstanding, available) bytes *)
+    let got := take k av in
     if cap1 <? len (a_data s) + len got then None
     else Some ({| a_st := a_st s; a_data := a_data s ++ got; a_out := usub32 (a_out s) (len got);
                   a_block := a_block s; a_cons := a_cons s; a_lsize := a_lsize s;
                   a_psize := a_psize s; a_cap := cap1; a_valid := a_valid s |},
-               drop (a_out s) av).
+               drop k av).
 
 (* the `while (true)` loop of IncomingStreamTransport::Receive; None also when the fuel runs out
    (two iterations per available byte always suffice) *)
